@@ -9,8 +9,8 @@
 #include <locale.h>
 #include "safe_lib.h"
 
-enum { XF_ASCTIME, XF_CTIME, XF_STRERROR, XF_GETENV, XF_GETS, XF_GMTIME, XF_LOCALTIME, XF_PRINTF, XF_WCSFC, XF_WCSNORM, XF_TOWFC, XF_NORMSTEP, XF_N };
-static const char *xfname[] = {"asctime_s", "ctime_s", "strerror_s", "getenv_s", "gets_s", "gmtime_s", "localtime_s", "printf", "wcsfc_s", "wcsnorm_s", "towfc_s", "wcsnorm_step"};
+enum { XF_ASCTIME, XF_CTIME, XF_STRERROR, XF_GETENV, XF_GETS, XF_GMTIME, XF_LOCALTIME, XF_PRINTF, XF_WCSFC, XF_WCSNORM, XF_TOWFC, XF_NORMSTEP, XF_FOPEN, XF_FREOPEN, XF_N };
+static const char *xfname[] = {"asctime_s", "ctime_s", "strerror_s", "getenv_s", "gets_s", "gmtime_s", "localtime_s", "printf", "wcsfc_s", "wcsnorm_s", "towfc_s", "wcsnorm_step", "fopen_s", "freopen_s"};
 
 typedef struct xcase {
     int fn;
@@ -69,6 +69,11 @@ static int gen_x(cs_t *cs, void *k, const runcfg_t *cfg) {
     case XF_GMTIME: case XF_LOCALTIME:
         c->a = (int)cs_range(cs, 0, 15);
         break;
+    case XF_FOPEN: case XF_FREOPEN:
+        c->a = (int)cs_range(cs, 0, 4);   /* 0 all valid, 1 streamptr NULL, 2 filename NULL, 3 mode NULL, 4 stream NULL (freopen_s) */
+        c->b = (int)cs_range(cs, 0, 2);   /* 0 /dev/null "r", 1 missing file, 2 /dev/null "w" */
+        c->dmax = 1;
+        break;
     case XF_PRINTF: {
         int wide = (int)cs_range(cs, 0, 1);
         c->f.ent = (wide ? 8 : 0) + (int)cs_range(cs, 0, 3);      /* the buffer sinks */
@@ -100,7 +105,7 @@ static void x_describe(const void *k, char *buf, size_t n) {
     if (c->fn == XF_PRINTF) { fmt_describe(&c->f, buf, n); return; }
     p = snprintf(buf, n, "%s(dmax=%d bos=%s%s%s roomy=%d a=%d b=%d c=%d", xfname[c->fn], c->dmax, c->dbos ? "known" : "unknown", c->dest_null ? " dest=NULL" : "",
                  c->src_null ? " src=NULL" : "", c->roomy, c->a, c->b, c->c);
-    if (c->fn >= XF_WCSFC && p < (int)n) {
+    if (c->fn >= XF_WCSFC && c->fn <= XF_NORMSTEP && p < (int)n) {
         int i;
         p += snprintf(buf + p, n - (size_t)p, " src=[");
         for (i = 0; i < c->wn && p < (int)n - 12; i++) p += snprintf(buf + p, n - (size_t)p, "U+%04X ", (unsigned)USYM[c->w[i] % NUSYM]);
@@ -160,6 +165,27 @@ static void run_x(const xcase_t *c, int guard) {
         if (O.dest && e->wide) for (i = 0; i < O.dmax_el; i++) ((uint32_t *)(void *)O.before)[i] = 0x81 + (uint32_t)(i % 61);
         return;
     }
+    if (c->fn == XF_FOPEN || c->fn == XF_FREOPEN) {
+        FILE **fpp = (FILE **)(void *)ar_alloc(guard, PL_END, sizeof(FILE *), 0);
+        FILE *old = NULL;
+        const char *name = c->b == 1 ? "/nonexistent-dir/verif-x" : "/dev/null";
+        const char *mode = c->b == 2 ? "w" : "r";
+        *fpp = NULL;
+        O.ran = 1; O.dest = NULL; O.is_string = 0; O.usable = 0;
+        if (c->fn == XF_FREOPEN && c->a != 4) old = fopen("/dev/null", "r");
+        if (c->fn == XF_FOPEN) AR_GUARDED(rc = fopen_s(c->a == 1 ? NULL : fpp, c->a == 2 ? NULL : name, c->a == 3 ? NULL : mode));
+        else AR_GUARDED(rc = freopen_s(c->a == 1 ? NULL : fpp, c->a == 2 ? NULL : name, c->a == 3 ? NULL : mode, old));
+        O.failed = rc != 0; O.code = rc < 0 ? -rc : rc;
+        O.faulted = g_ar_fault.faulted; O.fault_write = g_ar_fault.is_write; O.sig = g_ar_fault.sig;
+        if (!O.faulted) {
+            /* documented result: the stream pointer is set on success, and is a null pointer after any failure that reaches it */
+            if (rc == 0 && *fpp == NULL) { O.ref_ok = 0; snprintf(O.why, sizeof O.why, "success but *streamptr is NULL"); }
+            if (rc == 0 && *fpp) { fclose(*fpp); old = NULL; }
+            else if (old && c->fn == XF_FREOPEN && rc != 0 && c->a == 0) old = NULL; /* freopen closed it */
+            if (old) fclose(old);
+        }
+        return;
+    }
     {
         int w = c->fn >= XF_WCSFC ? 4 : 1;
         size_t el = (size_t)c->dmax + (size_t)c->roomy, bytes;
@@ -198,6 +224,11 @@ static void run_x(const xcase_t *c, int guard) {
             static const int en[] = {0, 1, 2, 12, 22, 34, 75, 84, 133, 134, 399, 400, 401, 403, 404, 406, 407, 408, 409, 410, 411, 412, -1, 10000};
             O.is_string = 1; O.usable = !c->dest_null && c->dmax > 0 && c->dmax <= 4096;
             AR_GUARDED(rc = _strerror_s_chk(c->dest_null ? NULL : (char *)dest, (rsize_t)c->dmax, en[c->a % 24], bos));
+            if (rc == 0 && !g_ar_fault.faulted && !c->dest_null) { /* strerrorlen_s announces the length of the untruncated message */
+                size_t L = strerrorlen_s(en[c->a % 24]);
+                if (L < (size_t)c->dmax && strnlen((char *)dest, (size_t)c->dmax) != L) { O.ref_ok = 0; snprintf(O.why, sizeof O.why, "strerrorlen_s says %zu, strerror_s stored %zu characters", L, strnlen((char *)dest, (size_t)c->dmax)); }
+                if (L < (size_t)c->dmax) { const char *m = strerror(en[c->a % 24]); if (en[c->a % 24] < ESNULLP || en[c->a % 24] > ESLAST) { O.has_ref = 1; snprintf(O.ref, sizeof O.ref, "%s", m); O.ref_len = strlen(O.ref); } }
+            }
             break;
         }
         case XF_GETENV: {
@@ -306,6 +337,7 @@ static const char *x_class(const xcase_t *c) {
         for (i = 0; i < c->f.nd; i++) if (strchr("fFeEgGa", c->f.d[i].conv)) return "float";
         return "int-char";
     }
+    if (c->fn == XF_FOPEN || c->fn == XF_FREOPEN) return c->a ? "null-arg" : (c->b == 1 ? "missing-file" : "valid");
     if (c->dest_null) return "null-dest";
     if (c->src_null && (c->fn == XF_ASCTIME || c->fn == XF_CTIME || c->fn == XF_GETENV || c->fn == XF_GMTIME || c->fn == XF_LOCALTIME || c->fn >= XF_WCSFC)) return "null-src";
     if (c->fn >= XF_WCSFC) return c->dmax < 5 ? "dmax<5" : "dmax>=5";
